@@ -13,6 +13,8 @@ use syn::{parse_quote, Block, Expr, Pat, Stmt};
 pub struct Config {
     /// recv.m(args) => f(recv, args)
     pub method_map: BTreeMap<String, String>,
+    /// R-call-map: a call through a path (`ToString::to_string(x)`) => `f(x)`
+    pub call_map: BTreeMap<String, String>,
     /// identifier (in type or expression paths) => replacement path text
     pub ident_map: BTreeMap<String, String>,
     /// traits whose impls are kept as trait impls (default: emitted as inherent impls)
@@ -51,6 +53,11 @@ impl Config {
         if let Some(m) = u["method_map"].as_object() {
             for (k, v) in m {
                 c.method_map.insert(k.clone(), v.as_str().unwrap().to_string());
+            }
+        }
+        if let Some(m) = u["call_map"].as_object() {
+            for (k, v) in m {
+                c.call_map.insert(norm(k), v.as_str().unwrap().to_string());
             }
         }
         if let Some(m) = u["ident_map"].as_object() {
@@ -884,6 +891,17 @@ impl<'a> VisitMut for Rewriter<'a> {
             if let Some(n) = rep {
                 fire(self.fired, "R-enumerate");
                 *e = n;
+            }
+        }
+        // R-call-map: `Path::to::f(args)` => `g(args)`
+        if let Expr::Call(c) = e {
+            if let Expr::Path(p) = &*c.func {
+                let key = norm(&p.to_token_stream().to_string());
+                if let Some(g) = self.cfg.call_map.get(&key) {
+                    let gp = parse_expr_str(g);
+                    c.func = Box::new(gp);
+                    fire(self.fired, &format!("R-call-map:{}", key));
+                }
             }
         }
         match e {
